@@ -196,12 +196,41 @@ pub fn gen_latency(t: &mut Tape) -> Scenario {
     let mut s = g.attrs.len() - 1;
     let depth = 1 + g.t.draw(5) as usize;
     for _ in 0..depth {
-        let op = match g.t.draw(6) {
+        let op = match g.t.draw(9) {
             0 | 1 => UnOp::Shuffle,
             2 => UnOp::Gb(GbForm::KeyedMap, AggFn::Sum),
             3 => UnOp::Map(MapFn::Add(1)),
             4 => UnOp::KeyByDrop,
-            _ => UnOp::Filter(PredFn::True),
+            5 => UnOp::Filter(PredFn::True),
+            6 => {
+                // route() into two branches that are merged again: every element takes one of them
+                let a = g.attrs[s].take().unwrap();
+                g.steps.push(Step::Route(s, vec![PredFn::IdBit(0), PredFn::True]));
+                let v0 = g.attrs.len();
+                g.attrs.push(Some(a.clone()));
+                g.attrs.push(Some(a));
+                let x = if g.t.draw(2) == 1 { g.un(v0, UnOp::Map(MapFn::Add(1))) } else { v0 };
+                s = g.bin(x, v0 + 1, BinOp::Merge);
+                continue;
+            }
+            7 => {
+                // split(): one branch drops everything, the other carries the elements; merged again
+                let a = g.attrs[s].take().unwrap();
+                g.steps.push(Step::Split(s, 2));
+                let v0 = g.attrs.len();
+                g.attrs.push(Some(a.clone()));
+                g.attrs.push(Some(a));
+                let x = g.un(v0, UnOp::Filter(PredFn::False));
+                s = if g.t.draw(2) == 1 { g.bin(x, v0 + 1, BinOp::Merge) } else { g.bin(v0 + 1, x, BinOp::Merge) };
+                continue;
+            }
+            _ => {
+                // merge with a bounded side that ends at once
+                let n2 = [0usize, 3][g.t.draw(2) as usize];
+                let o = g.add_source(false, n2, 5);
+                s = if g.t.draw(2) == 1 { g.bin(s, o, BinOp::Merge) } else { g.bin(o, s, BinOp::Merge) };
+                continue;
+            }
         };
         s = g.un(s, op);
     }
@@ -232,6 +261,7 @@ pub fn gen_graph(t: &mut Tape) -> Scenario {
     p.w_route = 6;
     p.w_loop = 6;
     p.w_join = 6;
+    p.w_zip = 5;
     p.allow_known_defects = true;
     let mut g = Gen::new(t, p.clone());
     let nh = 1 + g.t.draw(5) as usize;
